@@ -6,9 +6,30 @@ use crate::bases::*;
 use crate::common::ClusterHeader;
 use crate::creator::{Compression, InputReader, MaybeFileReader};
 use std::io::{BufWriter, Write};
+#[cfg(not(jubako_verif_loom))]
 use std::sync::{mpsc, Arc, Condvar, Mutex};
+#[cfg(not(jubako_verif_loom))]
 use std::thread::JoinHandle;
 
+#[cfg(jubako_verif_loom)]
+use crate::bases::verif_sync::{mpsc, spmc, thread::JoinHandle, Condvar, Mutex};
+#[cfg(jubako_verif_loom)]
+use std::sync::Arc;
+
+#[cfg(jubako_verif_loom)]
+#[inline(always)]
+fn spawn<F, T>(name: &str, f: F) -> JoinHandle<T>
+where
+    F: FnOnce() -> T + Send + 'static,
+    T: Send + 'static,
+{
+    crate::bases::verif_sync::thread::Builder::new()
+        .name(name.into())
+        .spawn(f)
+        .expect("Success to launch thread")
+}
+
+#[cfg(not(jubako_verif_loom))]
 #[inline(always)]
 fn spawn<F, T>(name: &str, f: F) -> std::thread::JoinHandle<T>
 where
